@@ -105,7 +105,9 @@ class Highlighter(object):
 
             if token_type == tokenize.ENDMARKER:
                 # End of source
-                line += "<{}>{}</>".format(self._theme[current_type], buffer)
+                if current_type is not None:
+                    line += "<{}>{}</>".format(self._theme[current_type], buffer)
+
                 lines.append(line)
                 break
 
